@@ -716,7 +716,8 @@ def import_module(ip, name):
     if name == 'operator':
         return I.Namespace('operator', {'itemgetter': I.Builtin('itemgetter', _itemgetter)})
     if name == 'itertools':
-        return I.Namespace('itertools', {'tee': I.Builtin('tee', _tee), 'combinations': I.Builtin('combinations', _combinations)})
+        return I.Namespace('itertools', {'tee': I.Builtin('tee', _tee), 'combinations': I.Builtin('combinations', _combinations),
+                                         'chain': I.Builtin('chain', lambda ip, a, k: I.IterV([x for it in a for x in ip.iterate(it)]))})
     if name == 'functools':
         return I.Namespace('functools', {'reduce': I.Builtin('reduce', _reduce)})
     if name in ('collections.abc', 'collections'):
